@@ -147,6 +147,20 @@ pub struct SubCfg {
     /// one subscriber object shared by several registrations (possibly on several stores)
     #[serde(default)]
     pub shared: bool,
+    /// when told about this action, the subscriber unsubscribes registration `.1` (of another
+    /// subscriber) from inside its callback
+    #[serde(default)]
+    pub unsub_other: Option<(ActId, usize)>,
+    /// the subscriber forwards: told about action a (a key), it dispatches the mapped action to
+    /// store `.0` through the Dispatcher interface, from inside its callback
+    #[serde(default)]
+    pub forward: Option<(usize, BTreeMap<ActId, ActId>)>,
+}
+
+impl Default for SubCfg {
+    fn default() -> Self {
+        SubCfg { kind: SubKind::Direct, read_state: false, gate: None, sleep_ms: 0, shared: false, unsub_other: None, forward: None }
+    }
 }
 
 #[derive(Serialize, Deserialize, Clone, Debug, PartialEq)]
